@@ -424,11 +424,17 @@ def _file_oracle(kinds):
                 lw = mrec.get(rec["n"] - 1)
                 if "C01" in kinds and lw and lw["op"] == "lwcheck":
                     v = (lw["res"] or "") + " " + " ".join(lw["lines"])
-                    if "hyps=true" in v:
+                    if " hyps=true" in v:
                         out.append(("_c01_saves_inside_load_write_domain", {}, ""))
                         if "frames_identical=true" in v: out.append(("_c01_saves_inside_domain_frames_identical", {}, ""))
                         if "concl=true" not in v: out.append(("theorem_instance", {"op": rec["n"]}, "the model state meets the hypotheses of load_write but not its conclusion: " + v))
-                    elif "hyps=false" in v: out.append(("_c01_saves_outside_load_write_domain", {}, ""))
+                    elif " hyps=false" in v: out.append(("_c01_saves_outside_load_write_domain", {}, ""))
+                if "C03" in kinds and lw and lw["op"] == "lwcheck":
+                    v = (lw["res"] or "") + " " + " ".join(lw["lines"])
+                    if "sd_hyps=true" in v:
+                        out.append(("_c03_saves_inside_spec_decode_domain", {}, ""))
+                        if "sd_concl=true" not in v: out.append(("theorem_instance", {"op": rec["n"]}, "the model state meets the hypotheses of spec_decode_write but Spec.decode of the model's bytes is not specContent: " + v))
+                    elif "sd_hyps=false" in v: out.append(("_c03_saves_outside_spec_decode_domain", {}, ""))
                 if "C03" in kinds:
                     sf = mrec.get(rec["n"] + 1); ss = mrec.get(rec["n"] + 2)
                     specf = oracles.parse_spec(sf["lines"]) if sf and sf["res"] == "R ok" else None
